@@ -7,6 +7,7 @@ package main
 import (
 	"fmt"
 	"reflect"
+	"regexp"
 	"sort"
 	"strconv"
 	"strings"
@@ -24,6 +25,38 @@ func noPanic(c *ICase, sum *Summary) {
 	for i, o := range c.Obs {
 		if o.Res == "(Some EPanic)" || o.Res == "(Some EHang)" {
 			addFail(sum, "Decode panicked or hung: "+o.ParseErr, c, "nil or an error", fmt.Sprintf("job %d: %s", i, o.Res))
+		}
+	}
+}
+
+var reIndex = regexp.MustCompile(`\[(\d+)\]`)
+
+// indexSyntax: a[i][j] is another spelling of a.i.j; the same program written
+// with dotted paths must end in the same state
+func indexSyntax(c *ICase, sum *Summary) {
+	noPanic(c, sum)
+	any := false
+	d := &ICase{Tag: c.Tag + " (dotted spelling)"}
+	for _, j := range c.Jobs {
+		j2 := j
+		j2.Prog = reIndex.ReplaceAllString(j.Prog, ".$1")
+		if j2.Prog != j.Prog {
+			any = true
+		}
+		d.Jobs = append(d.Jobs, j2)
+	}
+	if !any {
+		return
+	}
+	if err := d.exec(); err != nil {
+		return
+	}
+	sum.Distribution["index-syntax twins compared"]++
+	for i := range c.Obs {
+		a, b := c.Obs[i], d.Obs[i]
+		if a.Res != b.Res || !reflect.DeepEqual(a.Fields, b.Fields) || !reflect.DeepEqual(a.Trace, b.Trace) || !reflect.DeepEqual(a.Vars, b.Vars) {
+			addFail(sum, "a program using index syntax a[i] / a[i][j] ends in a different state than the same program with dotted paths a.i.j (the source addressed by index was not the one assigned)", c, b, a)
+			return
 		}
 	}
 }
@@ -283,7 +316,7 @@ func init() {
 					return singleJob("boundary grid", grid[i])
 				}
 				return singleJob("assign", genAssignJob(r, st))
-			}, nil, noPanic)
+			}, nil, indexSyntax)
 	}
 	runners["C02"] = func(cfg *runCfg) (*Summary, error) {
 		var pending []*ICase
@@ -340,10 +373,13 @@ func init() {
 	}
 	runners["C04"] = func(cfg *runCfg) (*Summary, error) {
 		return runInterp(cfg, "C04", 220, 2500,
-			"counter loops: five comparison operators x ++/-- x initial values and limits in a small window (literals, JSON numbers, static variables), Go-finite headers only, nested in counter and range loops, same loop executed repeatedly, loop variable probed in every iteration and used as a source",
+			"counter loops: five comparison operators x ++/-- x initial values and limits in a small window (literals, JSON numbers, static variables), Go-finite headers only, nested in counter and range loops, same loop executed repeatedly, loop variable probed in every iteration and used as a source; half of the reference programs end some iterations early with continue / break",
 			func(r *prng, i int, st map[string]int) *ICase {
 				if i%2 == 1 {
-					return refCase(r, rgenOpts{cloops: true, rloops: true, conds: true}, st, "reference")
+					// every other reference program also uses continue / break inside
+					// the body: the counter sequence must not be disturbed by an
+					// iteration that ends early
+					return refCase(r, rgenOpts{cloops: true, rloops: true, conds: true, signals: i%4 == 3}, st, "reference")
 				}
 				o := genOpts{loops: true, conds: i%2 == 0, userFns: true}
 				return singleJob("cloop", genJob(r, o, 3+r.intn(3), 3, st))
@@ -354,7 +390,7 @@ func init() {
 			"range loops over JSON arrays (ints, strings, objects; length 1-4), absent sources, and struct slices; forms k,v / _,v / k; nested to depth 3 with distinct names; consecutive loops; keys and values probed and used as sources and path roots; two decodes on one context",
 			func(r *prng, i int, st map[string]int) *ICase {
 				if i%2 == 1 {
-					return refCase(r, rgenOpts{rloops: true, cloops: true, conds: true}, st, "reference")
+					return refCase(r, rgenOpts{rloops: true, cloops: true, conds: true, signals: i%4 == 3}, st, "reference")
 				}
 				o := genOpts{loops: true, conds: i%2 == 0, userFns: true}
 				j1 := genJob(r, o, 3+r.intn(3), 3, st)
